@@ -241,7 +241,11 @@ class ExtendedContentDescriptionObject(BaseObject):
             pos += 4
             value = data[pos:pos + value_length]
             pos += value_length
-            attr = ASFBaseAttribute._get_type(value_type)(data=value)
+            try:
+                attr_type = ASFBaseAttribute._get_type(value_type)
+            except KeyError:
+                raise ASFError("unknown attribute type %r" % value_type)
+            attr = attr_type(data=value)
             asf._tags.setdefault(self.GUID, []).append((name, attr))
 
     def render(self, asf):
@@ -431,7 +435,11 @@ class MetadataObject(BaseObject):
             args = {'data': value, 'stream': stream}
             if value_type == 2:
                 args['dword'] = False
-            attr = ASFBaseAttribute._get_type(value_type)(**args)
+            try:
+                attr_type = ASFBaseAttribute._get_type(value_type)
+            except KeyError:
+                raise ASFError("unknown attribute type %r" % value_type)
+            attr = attr_type(**args)
             asf._tags.setdefault(self.GUID, []).append((name, attr))
 
     def render(self, asf):
@@ -463,7 +471,11 @@ class MetadataLibraryObject(BaseObject):
             args = {'data': value, 'language': language, 'stream': stream}
             if value_type == 2:
                 args['dword'] = False
-            attr = ASFBaseAttribute._get_type(value_type)(**args)
+            try:
+                attr_type = ASFBaseAttribute._get_type(value_type)
+            except KeyError:
+                raise ASFError("unknown attribute type %r" % value_type)
+            attr = attr_type(**args)
             asf._tags.setdefault(self.GUID, []).append((name, attr))
 
     def render(self, asf):
